@@ -294,6 +294,8 @@ impl Check for C10 {
             1 => Just(None),
             1 => Just(Some(Vec::new())),
             5 => proptest::collection::vec(any::<u8>(), 1..=64).prop_map(Some),
+            // longer than the HMAC block (the key is hashed first)
+            1 => proptest::collection::vec(any::<u8>(), 65..=200).prop_map(Some),
         ];
         let expiry = proptest::sample::select(vec![0u64, 1, 60, 21600, 1 << 40, u64::MAX, u64::MAX - 1_000_000]);
         let from2 = prop_oneof![
